@@ -3,7 +3,7 @@
 From Coq Require Import List NArith Bool Arith Lia Permutation.
 Import ListNotations.
 Require Import Base.Wire Base.PyStr C20.Model C20.AuxList C20.Sort C20.Lemmas C20.History C20.Failure
-               C20.Invariant C20.Dispatch C20.Sharing.
+               C20.Invariant C20.Dispatch C20.Sharing C20.Alive.
 Open Scope N_scope.
 
 Definition nBeta : str := [66; 101; 116; 97].
@@ -70,3 +70,14 @@ Lemma networks_example :
   map fst (b_refs b) = [0; 1; 2] /\
   map (fun h => map cname (view b h)) [0; 1; 2] = [[nOwner; nBeta]; [nOwner; nBeta]; [nOwner; nBeta]].
 Proof. vm_compute. split; reflexivity. Qed.
+
+(* die() log: the failing reload of the 6-operation history tears nothing down; a following good
+   reload tears down exactly the old Alpha instance (object 2), once; an unload then Beta (object 3) *)
+Lemma history6_die_log :
+  s_dead (steps lower_ascii w6 st0 ops6) = [] /\
+  s_dead (steps lower_ascii w6 st0 (ops6 ++ [Reload nAlpha 0 false false id_oracle])) = [2] /\
+  s_dead (steps lower_ascii w6 st0 (ops6 ++ [Reload nAlpha 0 false false id_oracle; Reload nAlpha 1 false false id_oracle;
+                                             Unload nBeta true])) = [2; 3] /\
+  ids (s_cbs (steps lower_ascii w6 st0 (ops6 ++ [Reload nAlpha 0 false false id_oracle; Reload nAlpha 1 false false id_oracle;
+                                                  Unload nBeta true]))) = [0; 5; 1].
+Proof. vm_compute. repeat split. Qed.
